@@ -783,6 +783,89 @@ def _named_temp(*a: Any, **k: Any) -> Any:
 _tempfile_facade.NamedTemporaryFile = _named_temp  # type: ignore
 
 
+# ---------------------------------------------------------------- unicodedata.normalize on symbolic text
+# The normal form of a character matters to the code under test only through a small alphabet (path syntax: '.', '/',
+# '\\', NUL).  Per symbolic character the model forks into: ASCII (unchanged in every form); one class per *pattern*
+# of the normal form in which every character outside the alphabet is a wildcard ('..' for U+2025, '?/?' for the
+# "care of" signs, '?.' for the digit-full-stop signs, ...) - the wildcards become fresh ASCII characters outside the
+# alphabet; one class per length for normal forms that contain ASCII but nothing from the alphabet; and "kept as it is"
+# for everything else (such characters never produce an ASCII character, alone or by composition with a neighbour).
+# The tables are computed from this interpreter's unicodedata on first use.
+UNICODE_RELEVANT = set('./\\\0')
+_norm_cache: dict = {}
+
+
+def _intervals(cps: list) -> list:
+    out: list = []
+    for cp in sorted(cps):
+        if out and out[-1][1] == cp - 1:
+            out[-1][1] = cp
+        else:
+            out.append([cp, cp])
+    return out
+
+
+def _norm_tables(form: str) -> Any:
+    if form in _norm_cache:
+        return _norm_cache[form]
+    import unicodedata as _ud
+    import collections
+    pats: dict = collections.defaultdict(list)
+    for cp in range(0x80, 0x110000):
+        if 0xD800 <= cp <= 0xDFFF:
+            continue
+        c = chr(cp)
+        n = _ud.normalize(form, c)
+        if n == c or not any(ord(x) < 0x80 for x in n):
+            continue
+        pats[tuple(x if x in UNICODE_RELEVANT else None for x in n)].append(cp)
+    tab = [(pat, _intervals(cps)) for pat, cps in sorted(pats.items(), key=lambda kv: (len(kv[0]), str(kv[0])))]
+    _norm_cache[form] = tab
+    return tab
+
+
+def _sym_normalize(form: Any, s: Any) -> Any:
+    import unicodedata as _ud
+    if not is_sym(s):
+        return _ud.normalize(form, s)
+    if s.is_concrete():
+        return _ud.normalize(form, s.lower_concrete())
+    eng = cur()
+    out: list = []
+    for c in s.items:
+        if not is_sym(c):
+            out += [ord(x) for x in _ud.normalize(form, chr(c))]
+            continue
+        if bool(c < 0x80):
+            out.append(c)
+            continue
+        done = False
+        for pat, ivs in _norm_tables(str(form)):
+            member = z3.Or(*[z3.And(c.t >= lo, c.t <= hi) if lo != hi else c.t == lo for lo, hi in ivs])
+            if eng.branch(member):
+                for x in pat:
+                    if x is not None:
+                        out.append(ord(x))
+                    else:
+                        w = eng.fresh_int('nf', 1, 0x7f)
+                        for r in UNICODE_RELEVANT:
+                            eng.add(w.t != ord(r))
+                        out.append(w)
+                done = True
+                break
+        if not done:
+            out.append(c)
+    return SymStr(out)
+
+
+import unicodedata as _unicodedata_mod
+_unicodedata_facade = types.ModuleType('unicodedata')
+for _n in dir(_unicodedata_mod):
+    if not _n.startswith('__'):
+        setattr(_unicodedata_facade, _n, getattr(_unicodedata_mod, _n))
+_unicodedata_facade.normalize = _sym_normalize  # type: ignore
+
+
 def _make_prep_facade() -> Any:
     """pysasl.prep with saslprep() exact on ASCII symbolic text: ASCII is mapped to itself, and exactly the ASCII
     control characters (RFC 3454 C.2.1: U+0000-001F, U+007F) are prohibited (difftest compares this with the real
@@ -847,6 +930,8 @@ def _import(name: str, globals: Any = None, locals: Any = None,
             return _asyncio_facade
         if name == 'tempfile':
             return _tempfile_facade
+        if name == 'unicodedata':
+            return _unicodedata_facade
         if name == 'pysasl.prep' and fromlist:
             if _prep_facade[0] is None:
                 _prep_facade[0] = _make_prep_facade()
